@@ -34,7 +34,7 @@ ENTRIES += [
     dict(id='F17', property='C20', status='fixed', commit='1ff7b7b', bucket='C20/reply-id',
          what="the mocker answered request id 0 with the patch's own id (null)",
          witness={'target': 'sync', 'passthrough': False, 'ops': [['add', 0, 0, {'kind': 'result', 'value': 1}, False], ['call', 0, 0, [1], 0]]}),
-    dict(id='F20', property='C20', status='fixed', commit='930172f', bucket='C20/passthrough',
+    dict(id='F21', property='C20', status='fixed', commit='930172f', bucket='C20/passthrough',
          what="after a batch consumed an endpoint's last once-patch, later requests to that endpoint got -32601 instead of passthrough / refusal",
          witness={'target': 'sync', 'passthrough': True, 'ops': [['add', 0, 0, {'kind': 'result', 'value': None}, True],
                                                                     ['batch', 0, [[0, None], [0, None]]], ['call', 0, 0, None, 1]]}),
@@ -56,7 +56,7 @@ ENTRIES += [
     dict(id='F12', property='C18', status='fixed', commit='05ff761', bucket='C18/flask/undecodable-body-not-refused',
          what="flask / werkzeug dispatched a body that is not valid UTF-8 (decoded with errors='replace')",
          witness={**_B18, 'media': 'application/json', 'body': {'bytes': 'latin1-call'}}),
-    dict(id='F21', property='C18', status='fixed', commit='80b20dc', bucket='C18/flask/status',
+    dict(id='F22', property='C18', status='fixed', commit='80b20dc', bucket='C18/flask/status',
          what="flask: a request whose parameters do not bind ended in HTTP 500 (ValidationError not serialisable through flask.json.dumps) instead of a -32602 response",
          witness={**_B18, 'media': 'application/json', 'body': _T18({'jsonrpc': '2.0', 'id': 1, 'method': 'echo'})}),
 ]
@@ -69,13 +69,13 @@ ENTRIES += [
          what="a model validator raising ValueError made dispatch raise TypeError (error context not JSON-serializable)",
          witness={'dispatcher': 'sync', 'validator': 'pydantic', 'flavour': 'func', 'ctx': False, 'excluded': False, 'coerce': True, 'top': {},
                   'params': [{'name': 'p0', 'kind': 'PK', 'type': 'vmodel'}], 'args': {'value': {'p0': {'n': -1}}}}),
-    dict(id='F22', property='C14', status='fixed', commit='085c188', bucket='C14/conforming-call-refused/pydantic',
+    dict(id='F23', property='C14', status='fixed', commit='085c188', bucket='C14/conforming-call-refused/pydantic',
          what="PydanticValidator answered -32603 for methods with an unhashable default (List[int] = [])",
          witness={'dispatcher': 'sync', 'validator': 'pydantic', 'flavour': 'func', 'ctx': False, 'excluded': False, 'coerce': True, 'top': {},
                   'params': [{'name': 'p0', 'kind': 'PK', 'type': 'list_int', 'default': {'value': []}}], 'args': {'value': [['1', 2]]}}),
 ]
 ENTRIES += [
-    dict(id='F23', property='C17', status='fixed', commit='e3f59ad', bucket='C17/openapi/self-documented',
+    dict(id='F24', property='C17', status='fixed', commit='e3f59ad', bucket='C17/openapi/self-documented',
          what="view methods: the class function's first parameter ('self') was documented as a required parameter in OpenAPI and OpenRPC",
          witness={'method': {'params': [{'name': 'p0', 'kind': 'PK'}], 'flavour': 'view', 'excluded': False, 'view_ctx': True}}),
 ]
@@ -94,7 +94,7 @@ ENTRIES += [
               "empty base path) emits path keys such as '#method' that do not start with '/', which the OpenAPI meta-schemas forbid; "
               "normalising the key would change the documents every default-configured deployment publishes, so it is recorded, not repaired",
          witness={'kind': 'openapi-3.1.0', 'extractors': ['base'], 'methods': [_M16], 'endpoints': 1, 'generations': 1, 'spec_opts': _O16, 'path': ''}),
-    dict(id='F24', property='C16', status='fixed', commit='3c07a64', bucket='C16/not-json-encodable/TypeError',
+    dict(id='F25', property='C16', status='fixed', commit='3c07a64', bucket='C16/not-json-encodable/TypeError',
          what="OpenRPC + DocstringSchemaExtractor: a ':rtype:' without description put the UNSET sentinel into the document (not JSON-encodable)",
          witness={'kind': 'openrpc', 'extractors': ['docstring'], 'methods': [{**_M16, 'doc': 'bare-types'}], 'endpoints': 1, 'generations': 1, 'spec_opts': _O16, 'path': '/api'}),
     dict(id='F13', property='C16', status='fixed', commit='27e8030', bucket='C16/purity/annotations-or-user-objects-modified',
